@@ -15,6 +15,7 @@ package main
 
 import (
 	"os"
+	"strconv"
 	"strings"
 
 	"github.com/wader/fq/internal/verifharness/hlib"
@@ -42,6 +43,11 @@ func main() {
 				continue
 			}
 			switch ws[0] {
+			case "jsonv":
+				if (section == "" || section == "interp") && len(ws) >= 6 {
+					pi, _ := strconv.Atoi(ws[4])
+					runNumPath(o, ws[2], hlib.UnHex(ws[3]), pi, strings.Join(ws[5:], " "))
+				}
 			case "ntree":
 				if section == "" || section == "interp" {
 					replayNTree(o, repo, ws)
@@ -53,6 +59,11 @@ func main() {
 			case "json":
 				if (section == "" || section == "interp") && len(ws) >= 3 {
 					v := strings.TrimSpace(strings.TrimPrefix(strings.TrimSpace(strings.TrimPrefix(l, "json")), ws[1]))
+					if strings.HasPrefix(ws[1], "n") {
+						n := strings.TrimPrefix(ws[1], "n")
+						runDeepBatch(o, []deepCase{{val: v, call: "tojson({indent:" + n + "})|println", mode: ws[1]}})
+						continue
+					}
 					dup := false
 					for _, x := range jsons {
 						dup = dup || x == v
@@ -93,6 +104,8 @@ func main() {
 		}
 		genNested(o, r, repo, nNest, th)
 		genBigV(o, r, nBig)
+		genNumBoundaries(o, r)
+		genDeepJSON(o, r, th)
 		genJSON(o, r, th)
 	}
 }
